@@ -37,7 +37,7 @@ pub fn budget(prop: &str, tier: Tier) -> u64 {
         "C03" => 100_000,
         "C04" => 150_000,
         "C05" => 12_000,
-        "C06" => 40_000,
+        "C06" => 20_000,
         "C07" => 5_000,
         "C08" => 15_000,
         "C09" => 900,
